@@ -60,10 +60,11 @@ GROUPINGS = {
     "g/g2": [("g",), ("g", "g2")],
     "g*g2": [("g",), ("g2",), ("g", "g2")],
     "C(k)": [("C(k)",)],
+    "k": [("k",)],  # a numeric column used directly as grouping factor
     "co": [("co",)],
     "g2:C(k)": [("g2", "C(k)")],
 }
-FCOL = {"g": "g", "g2": "g2", "C(k)": "k", "co": "co"}
+FCOL = {"g": "g", "g2": "g2", "C(k)": "k", "k": "k", "co": "co"}
 
 
 def spec(tier):
@@ -355,7 +356,7 @@ def gen_cases(tier, seed, i, n):
             [("0 + x", "0 + s"), ("0 + s", "0 + x"), ("x", "0 + s"), ("0 + s", "x"), ("s", "0 + x:s"), ("0 + x", "s")]
     for a, b in pairs:
         for order in ((a, b), (b, a)):
-            for g in ("g", "g:g2", "g + g2"):
+            for g in ("g", "g:g2", "g + g2", "k", "C(k)"):
                 for crossed in (True, False):
                     if k % n == i:
                         yield k, {"group": [{"effect": order[0], "grouping": g}, {"effect": order[1], "grouping": g}],
@@ -391,6 +392,7 @@ def gen_cases(tier, seed, i, n):
 def finish(case, k, seed):
     r = random.Random(k * 2654435761 % (2 ** 31) + seed)
     case["levels"] = {f: r.choice([2, 3]) for f in ("g", "g2", "s", "h", "k", "co")}
+    case["levels"]["k"] = r.choice([2, 3, 4])
     case["levels"]["g"] = r.choice([2, 3, 4])
     case["frame_seed"] = (k * 7919 + seed * 104729 + 11) % (2 ** 31)
     case["reps"] = r.choice([3, 4])
